@@ -70,7 +70,8 @@ fn pool() -> Vec<C> {
 }
 
 const SALIENCES: [i32; 3] = [10, 0, -3];
-const FACTS: [[(&str, i64); 2]; 2] = [[("x", 5), ("y", 10)], [("x", 9), ("y", 2)]];
+// (the third fact set is EMPTY: a negated condition holds on it, and nothing else does)
+const FACTS: [&[(&str, i64)]; 3] = [&[("x", 5), ("y", 10)], &[("x", 9), ("y", 2)], &[]];
 
 /// one rule of a set: (salience index, condition index, enabled, has a harmless action)
 type RSpec = (usize, usize, bool, bool);
@@ -191,7 +192,7 @@ fn search_equals() -> (bool, String) {
         for facts_i in 0..FACTS.len() {
             // the reference: each ENABLED rule evaluated once on the initial facts
             let mut expect: Vec<(String, bool)> =
-                set.iter().enumerate().filter(|(_, r)| r.2).map(|(i, r)| (format!("R{}", i), holds(&p[r.1], &FACTS[facts_i]))).collect();
+                set.iter().enumerate().filter(|(_, r)| r.2).map(|(i, r)| (format!("R{}", i), holds(&p[r.1], FACTS[facts_i]))).collect();
             expect.sort();
             let exp_eval = expect.len();
             let exp_fired = expect.iter().filter(|x| x.1).count();
@@ -225,7 +226,7 @@ fn search_equals() -> (bool, String) {
             }
         }
     }
-    (false, format!("{} rule sets of 1..8 rules x 2 fact sets x max_threads 1..6 x min_rules_per_thread 1..4 x on/off = {} runs: fired set and counts equal the one-by-one evaluation (one schedule each)", sets.len(), runs))
+    (false, format!("{} rule sets of 1..8 rules x 3 fact sets (one empty) x max_threads 1..6 x min_rules_per_thread 1..4 x on/off = {} runs: fired set and counts equal the one-by-one evaluation (one schedule each)", sets.len(), runs))
 }
 
 fn search_order() -> (bool, String) {
